@@ -224,3 +224,54 @@ func VC17_HistoryRoulette() {
 	vAssert(a1 == a2, "C17: earlier unrelated work does not change the activation type drawn for a new node")
 	vReach("end")
 }
+
+// earlier unrelated work, third kernel: the options a population is spawned with were derived (copied by value, one
+// setting changed) from an options object the process had already worked with. Equal settings must give the same
+// population as options built from scratch - whatever an options object remembers from earlier use must not travel
+// with its copies.
+func VC17_HistoryOptions() {
+	g := tGenome("g", 1, cfgTiny)
+	mk := func(th float64) *neat.Options {
+		o := &neat.Options{DisjointCoeff: 1, ExcessCoeff: 1, MutdiffCoeff: 0.5}
+		o.PopSize = 2
+		o.CompatThreshold = th
+		o.GenCompatMethod = neat.GenomeCompatibilityMethodFast
+		return o
+	}
+	th, other := vFloat("CompatThreshold"), vFloat("CompatThreshold of the earlier work")
+	vAssume(vAnd(th > 0, th <= 100))
+	vAssume(vAnd(other > 0, other <= 100))
+	fresh := mk(th)
+	// earlier work: a population spawned and speciated with the base options
+	base := mk(other)
+	g0 := c17Copy(g, 1)
+	mark := vRandMark()
+	_ = newPopulation().spawn(g0, base)
+	_, _ = neat.FromContext(base.NeatContext())
+	derived := *base
+	derived.CompatThreshold = th
+	g2 := c17Copy(g, 1)
+	p1, p2 := newPopulation(), newPopulation()
+	vRandRewind(mark)
+	e1 := p1.spawn(g, fresh)
+	vRandRewind(mark)
+	e2 := p2.spawn(g2, &derived)
+	vAssert((e1 == nil) == (e2 == nil), "C17: spawning succeeds or fails identically with options derived from used ones")
+	if e1 != nil || e2 != nil {
+		return
+	}
+	vAssert(len(p1.Organisms) == len(p2.Organisms) && len(p1.Species) == len(p2.Species), "C17: options derived from used ones give the same number of organisms and species as fresh options with equal settings")
+	for i := range p1.Organisms {
+		if i < len(p2.Organisms) {
+			vAssert(sameSnap(snap(p1.Organisms[i].Genotype), snap(p2.Organisms[i].Genotype)), "C17: options derived from used ones give the same genomes")
+			vAssert(p1.Organisms[i].Species.Id == p2.Organisms[i].Species.Id, "C17: options derived from used ones put the organisms into the same species")
+		}
+	}
+	o1, ok1 := neat.FromContext(fresh.NeatContext())
+	o2, ok2 := neat.FromContext(derived.NeatContext())
+	vAssert(ok1 && ok2 && o1 != nil && o2 != nil, "C17: the context of an options object carries options")
+	if o1 != nil && o2 != nil {
+		vAssertEqF(o1.CompatThreshold, o2.CompatThreshold, "C17: the context of an options object carries ITS settings, whatever object it was copied from")
+	}
+	vReach("end")
+}
